@@ -272,9 +272,10 @@ def segments_of(pt_tokens):
     return segs
 
 
-def ill_conditioned_arc_predicate(line, threshold=0.5):
+def ill_conditioned_arc_predicate(line, threshold=0.05):
     """F13: some three-point perfect-curve segment whose circumcircle is ill-conditioned in f32:
-    2^-23 * scale^2 * extent / |cross| > threshold (scale = largest |coordinate|, extent = longest side from the first point,
+    2^-23 * scale^2 * extent / |cross| > threshold (an estimate, in pixels, of the f32 error of the centre; the threshold is half
+    the arc tolerance 0.1; scale = largest |coordinate|, extent = longest side from the first point,
     cross = (b-a) x (c-a) evaluated in f64 on the f32 coordinates; exactly collinear points count as infinitely ill-conditioned
     when the code's own f32 collinearity test does not reject them)."""
     import math
